@@ -622,7 +622,7 @@ fn c12_skip_fixed_and_duration_nodes() {
 //@   props: C12
 //@   tier: quick
 //@   kind: complete
-//@   fn: de::deserializer::DatumDeserializer::deserialize_ignored_any vs deserialize_any (nodes date, timestamp-micros: no dedicated skip path, fall through to reading)
+//@   fn: de::deserializer::DatumDeserializer::deserialize_ignored_any vs deserialize_any (every int- and long-backed logical type: date, time-millis, time-micros, timestamp-millis, timestamp-micros)
 //@   domain: every input of length 0..=11
 //@   post: whenever reading succeeds, ignoring succeeds and consumes the same number of bytes
 #[kani::proof]
@@ -630,12 +630,19 @@ fn c12_skip_fixed_and_duration_nodes() {
 #[kani::stub(alloc::fmt::format, stub_format)]
 fn c12_skip_logical_varint_nodes() {
 	static DA: SchemaNode<'static> = SchemaNode::Date;
+	static TM: SchemaNode<'static> = SchemaNode::TimeMillis;
+	static TU: SchemaNode<'static> = SchemaNode::TimeMicros;
+	static SM: SchemaNode<'static> = SchemaNode::TimestampMillis;
 	static TS: SchemaNode<'static> = SchemaNode::TimestampMicros;
 	let buf: [u8; 11] = kani::any();
 	let len: usize = kani::any();
 	kani::assume(len <= 11);
 	let input = &buf[..len];
+	kani::cover!(matches!(spec_dec_long(input), Some((v, _)) if v > u32::MAX as i64), "COV long-backed value beyond 32 bits");
 	skip_equals_read!(&DA, input, len);
+	skip_equals_read!(&TM, input, len);
+	skip_equals_read!(&TU, input, len);
+	skip_equals_read!(&SM, input, len);
 	skip_equals_read!(&TS, input, len);
 }
 
